@@ -25,8 +25,9 @@
      single loop with the parameter wq; every C05/C10 theorem is stated for arbitrary wq).  Process scheduling
      and SCM_RIGHTS themselves are residue. *)
 From PM Require Import Lib.Bytes Lib.ZDict Exec.Threadless Exec.ThreadlessCases Exec.ThreadlessFacts
-  Exec.Modes Exec.ModesFacts Exec.ModesCases Exec.FdTable Exec.FdTableFacts Exec.Dispatch Exec.DispatchFacts.
-From Coq Require Import ZArith.
+  Exec.Modes Exec.ModesFacts Exec.ModesCases Exec.FdTable Exec.FdTableFacts Exec.Dispatch Exec.DispatchFacts
+  Exec.DispatchLocks Exec.DispatchLocksFacts.
+From Coq Require Import ZArith Permutation.
 
 Theorem C17_local_eq_threaded :
   forall (W IO : Type)
@@ -180,3 +181,136 @@ Proof.
   - eexists. vm_compute. repeat split.
   - eexists. eexists. vm_compute. repeat split.
 Qed.
+
+(* ------------------------------------------------------------------------------------------------------------
+   The lock discipline of the hand-off, for EVERY interleaving of concurrent dispatcher threads
+   (Exec/DispatchLocks.v, proofs in Exec/DispatchLocksFacts.v).
+
+   Several acceptor processes, each starting one dispatcher thread per accepted connection, write to the same worker
+   pipes.  A thread = the arguments Acceptor._work computes (work: executor_pids[index], executor_queues[index],
+   executor_locks[index] with index = (_total + idd) % num_workers) + the program of delegate_work_to_pool
+   (acquire work_lock; send(addr) unless unix; send_handle; conn.close(); release).  `run ths sched g` lets the threads
+   picked by `sched` take one atomic action each (a pick that is blocked on its lock or finished is skipped), so the
+   runs over ALL lists `sched` are exactly the interleavings the locks allow.  Every acceptor holds the pool's shared
+   lists: position i = pipe i, guarded by the lock object locks[i], whatever objects these are. *)
+
+(* _work never raises and takes pid, pipe and lock at the SAME list position *)
+Theorem C17_work_same_index :
+  forall nw pids locks unix idd total addr f,
+    nw <> 0 -> length pids = N.to_nat nw -> length locks = N.to_nat nw ->
+    exists th, work nw (shared_pool nw pids locks) unix idd total addr f = Ok th /\
+               t_queue th = N.to_nat (worker_index total idd nw) /\
+               nth_error locks (N.to_nat (worker_index total idd nw)) = Some (t_lock th) /\
+               nth_error pids (N.to_nat (worker_index total idd nw)) = Some (t_pid th) /\
+               t_conn th = f /\ t_addr th = addr /\ t_unix th = unix.
+Proof. exact work_spawned. Qed.
+Print Assumptions C17_work_same_index.
+
+(* any number of workers, any collection of accepted connections of any acceptors at any values of their counters, any
+   schedule: once all dispatcher threads have returned, the pipe of every worker k is the concatenation, in SOME order,
+   of the complete message blocks of exactly the connections routed to k - a permutation at block granularity *)
+Theorem C17_dispatch_atomic :
+  forall nw pids locks unix (cs : list conn) ths (sched : list nat),
+    nw <> 0 -> length pids = N.to_nat nw -> length locks = N.to_nat nw ->
+    spawn_all work nw (shared_pool nw pids locks) unix cs = Ok ths ->
+    let g := run_conns ths nw sched in
+    all_done g = true ->
+    forall k, (k < N.to_nat nw)%nat ->
+      exists cs', Permutation cs' (routed_to nw k cs) /\ pipe g k = flat_map (conn_block unix) cs'.
+Proof. exact dispatch_atomic. Qed.
+Print Assumptions C17_dispatch_atomic.
+
+(* ... hence every worker reads its whole pipe without failure and is handed exactly the connections routed to it,
+   each descriptor with ITS OWN address (no mix-up between two connections) *)
+Theorem C17_interleaved_receive_ok :
+  forall nw pids locks unix (cs : list conn) ths (sched : list nat),
+    nw <> 0 -> length pids = N.to_nat nw -> length locks = N.to_nat nw ->
+    spawn_all work nw (shared_pool nw pids locks) unix cs = Ok ths ->
+    let g := run_conns ths nw sched in
+    all_done g = true ->
+    forall k, (k < N.to_nat nw)%nat ->
+      exists cs', Permutation cs' (routed_to nw k cs) /\
+        receive_all unix (2 * length (routed_to nw k cs) + 1) (pipe g k) =
+        Ok (map (fun c => (c_fd c, told_addr unix (c_addr c))) cs').
+Proof. exact interleaved_receive_ok. Qed.
+Print Assumptions C17_interleaved_receive_ok.
+
+(* the invariant, in EVERY reachable state (not only final ones): Inv (lock table and program counters agree; every
+   pipe = complete blocks + at most the address of the one thread between its two writes); while a thread is inside
+   its critical section on a pipe no other thread routed to that pipe is inside its own (mutex); a pipe whose lock is
+   free holds only complete blocks - those of the threads routed to it that have returned *)
+Theorem C17_dispatch_invariant :
+  forall nw pids locks unix (cs : list conn) ths (sched : list nat),
+    nw <> 0 -> length pids = N.to_nat nw -> length locks = N.to_nat nw ->
+    spawn_all work nw (shared_pool nw pids locks) unix cs = Ok ths ->
+    let g := run_conns ths nw sched in
+    Inv ths g /\
+    (forall t1 t2 th1 th2 p1 p2,
+       at_ ths (g_pcs g) t1 th1 p1 -> at_ ths (g_pcs g) t2 th2 p2 -> t_queue th1 = t_queue th2 ->
+       critical p1 = true -> critical p2 = true -> t1 = t2) /\
+    forall k l, (k < N.to_nat nw)%nat -> nth_error locks k = Some l -> lock_free (g_held g) l = true ->
+      exists order, NoDup order /\
+        (forall tid, In tid order <-> exists th, at_ ths (g_pcs g) tid th PDone /\ t_queue th = k) /\
+        pipe g k = blocks ths order.
+Proof. exact dispatch_invariant_conns. Qed.
+Print Assumptions C17_dispatch_invariant.
+
+(* the discipline itself is what matters: for ANY set of threads such that two threads writing to the same pipe take the
+   same lock, every reachable state satisfies the invariant *)
+Theorem C17_dispatch_discipline_suffices :
+  forall ths npipes sched,
+    (forall t1 t2 th1 th2, nth_error ths t1 = Some th1 -> nth_error ths t2 = Some th2 ->
+                           t_queue th1 = t_queue th2 -> t_lock th1 = t_lock th2) ->
+    Inv ths (run ths sched (init_gstate npipes (length ths))).
+Proof. exact Inv_reachable. Qed.
+Print Assumptions C17_dispatch_discipline_suffices.
+
+(* no deadlock: in every reachable state some thread that has not returned can move, and some continuation of the
+   schedule lets all threads return (so the premise `all_done` of C17_dispatch_atomic is reachable from everywhere) *)
+Theorem C17_dispatch_no_deadlock :
+  forall nw pids locks unix (cs : list conn) ths (sched : list nat),
+    nw <> 0 -> length pids = N.to_nat nw -> length locks = N.to_nat nw ->
+    spawn_all work nw (shared_pool nw pids locks) unix cs = Ok ths ->
+    let g := run_conns ths nw sched in
+    (all_done g = false -> exists tid g', step ths tid g = Some g') /\
+    exists more, all_done (run_conns ths nw (sched ++ more)) = true.
+Proof. exact dispatch_no_deadlock. Qed.
+Print Assumptions C17_dispatch_no_deadlock.
+
+(* refutation of the broken discipline (lock taken at position total mod n, pipe at (total mod n + idd) mod n, as in the
+   seeded change C17-r3-1): two acceptors, two connections routed to worker 0 and a schedule allowed by the locks after
+   which worker 0's pipe is `address, address, descriptor, descriptor` and its receive fails; on the way both threads
+   are inside their critical sections on pipe 0 at once.  Under the real _work the same connections with the same picks
+   (repeated once, since the second thread is now blocked when first picked) are received correctly. *)
+Theorem C17_lock_index_matters :
+  exists (cs : list conn) (sched pre : list nat) (ths : list thread),
+    length cs = 2%nat /\ map c_idd cs = [0; 1] /\ routed_to 2 0 cs = cs /\
+    spawn_all work_seeded 2 ex_pool false cs = Ok ths /\
+    (let g := run_conns ths 2 sched in
+     all_done g = true /\
+     pipe g 0 = [MAddr (Some 4000); MAddr (Some 4001); MHandle 21%Z; MHandle 20%Z] /\
+     receive_all false 5 (pipe g 0) = Err (OSError 0)) /\
+    (let g := run_conns ths 2 pre in ~ mutex ths g) /\
+    (exists ths', spawn_all work 2 ex_pool false cs = Ok ths' /\
+       let g := run_conns ths' 2 (sched ++ sched) in
+       all_done g = true /\ receive_all false 5 (pipe g 0) = Ok [(20%Z, Some 4000); (21%Z, Some 4001)]).
+Proof. exact lock_index_matters. Qed.
+Print Assumptions C17_lock_index_matters.
+
+(* non-vacuity: 2 acceptors, 2 workers, 4 connections and a schedule in which threads interleave and are picked while
+   blocked; an intermediate state (thread 1 between its two writes, thread 0 blocked on the same lock, thread 2 inside
+   the other critical section) and the final state (pipe 0 holds thread 1's block BEFORE thread 0's) *)
+Example C17_locks_nonvacuous :
+  exists ths,
+    spawn_all work 2 ex_pool false ex_conns = Ok ths /\
+    (let g := run_conns ths 2 ex_prefix in
+       g_pcs g = [PStart; PAddrSent; PLocked; PStart] /\ g_held g = [(1, 2); (0, 1)]%nat /\
+       pipe g 0 = [MAddr (Some 4001)] /\ step ths 0 g = None /\ step ths 3 g = None) /\
+    (let g := run_conns ths 2 ex_sched in
+       all_done g = true /\ g_held g = [] /\
+       g_pipes g = [[MAddr (Some 4001); MHandle 21%Z; MAddr (Some 4000); MHandle 20%Z];
+                    [MAddr (Some 4002); MHandle 22%Z; MAddr (Some 4003); MHandle 23%Z]] /\
+       receive_all false 5 (pipe g 0) = Ok [(21%Z, Some 4001); (20%Z, Some 4000)] /\
+       receive_all false 5 (pipe g 1) = Ok [(22%Z, Some 4002); (23%Z, Some 4003)]).
+Proof. exact locks_nonvacuous. Qed.
+Print Assumptions C17_locks_nonvacuous.
